@@ -60,7 +60,7 @@ LeafCount(a) == Cardinality({j \in DOMAIN Leaves[T] : Leaves[T][j] = a})
 ExpectAdd(a) == IF Chk THEN Ext(A, P, FD, Append(ins, a)) ELSE TRUE
 
 Init == /\ T \in Types /\ Chk \in Chks /\ Family \in Families
-        /\ (Family # "uniform" => Chk)       \* the word families are about checked elements
+        /\ (Family \in {"perms", "removal"} => Chk)   \* valid words are also supplied to unchecked elements (C18: same bytes)
         /\ ins = <<>> /\ hist = <<>> /\ rare = 0
         /\ plan \in (IF Family = "cover" THEN EdgeCoverWords(ModelOf[T].A) ELSE {<<>>})
 Fixed == UNCHANGED <<T, Chk, Family, plan>>
